@@ -1128,7 +1128,7 @@ class Keyvalues:
                 for kv in other:
                     if not isinstance(kv, Keyvalues):
                         raise TypeError(f'{type(kv).__name__} is not a Keyvalue!')
-                    self._value.append(kv.copy())
+                    copy._value.append(kv.copy())
             return copy
         else:
             return NotImplemented
